@@ -65,7 +65,9 @@ fn check_value(ctx: &mut Ctx, name: &str, d: &[usize], vals_in: &[f64], kind: &O
     ctx.meta(|| format!("{} {:?} ok{:?}", kind.name(), d, results[0].0));
     for (i, (gd, gv, _)) in results.iter().enumerate() {
         ctx.count("elements_compared", want.v.len() as u64);
-        match compare(gd, gv, &want, if exact { Rule::Exact } else { Rule::Tol(scale) }) {
+        let pointwise = matches!(kind, OpKind::Exp | OpKind::Ln | OpKind::Recip | OpKind::Sigmoid | OpKind::Softmax | OpKind::Powf(_) | OpKind::Scale(_));
+        let cmp = if !exact && pointwise { compare_rel(gd, gv, &want) } else { compare(gd, gv, &want, if exact { Rule::Exact } else { Rule::Tol(scale) }) };
+        match cmp {
             Ok(w) => ctx.fmax("value", w),
             Err((k, detail)) => {
                 ctx.violation(
